@@ -5,8 +5,8 @@ package c06
 // the whole trace is validated by TLC against spec/gossipkv/GossipKVTrace.tla.
 
 import (
+	"context"
 	"fmt"
-	"math/rand"
 	"os"
 	"testing"
 	"testing/synctest"
@@ -25,10 +25,9 @@ func (c *cluster) postAll() []gotProj {
 	return out
 }
 
-func recordOne(t *testing.T, w *abs.NDJSONWriter, nn, ni, retention, tmult, maxClock, steps int, seed int64) (fatal string) {
+func recordOne(t *testing.T, w *abs.NDJSONWriter, nn, ni int, pr params, maxClock, steps int, gates, deletes bool, seed int64) (fatal string) {
 	synctest.Test(t, func(t *testing.T) {
-		c := &cluster{t: t, n: nn, ni: ni, epoch: time.Now().Unix(), retention: retention, tmult: tmult,
-			packets: map[string][]byte{}, rnd: rand.New(rand.NewSource(seed))}
+		c := newCluster(t, nn, ni, pr, seed)
 		defer func() {
 			for _, nd := range c.nodes {
 				if nd != nil {
@@ -44,11 +43,11 @@ func recordOne(t *testing.T, w *abs.NDJSONWriter, nn, ni, retention, tmult, maxC
 			}
 			c.nodes = append(c.nodes, nd)
 		}
-		var pkeys []string           // packet keys in order of first appearance
-		pdesc := map[string]desc{}   // key -> content
+		var pkeys []string             // packet keys in order of first appearance
+		pmsg := map[string]msg{}       // key -> message
 		written := map[string]string{} // "i@ts" -> live state written (workload proviso OneContentPerSecond)
 		states := []string{"ACTIVE", "LEAVING"}
-		kinds := []string{"truncated", "bitflip", "badcodec", "emptykey"}
+		kinds := []string{"truncated", "badvalue", "badcodec", "emptykey"}
 		_ = w.Write(event{"a": "Reset"})
 		emitted := 0
 		emit := func(e event) {
@@ -57,11 +56,16 @@ func recordOne(t *testing.T, w *abs.NDJSONWriter, nn, ni, retention, tmult, maxC
 			e["post"] = c.postAll()
 			_ = w.Write(e)
 		}
+		withMsg := func(e event, m msg) event {
+			e["p"], e["pd"], e["pu"] = m.Chg, m.Del, m.Upd
+			return e
+		}
 		for s := 0; emitted < steps && s < 20*steps; s++ {
-			r := c.rnd.Intn(25)
+			r := c.rnd.Intn(33)
 			n := 1 + c.rnd.Intn(nn)
 			nd := c.nodes[n-1]
 			now := int(time.Now().Unix() - c.epoch)
+			closed, waiting := nd.g.state()
 			switch {
 			case r < 2:
 				if now >= maxClock {
@@ -104,23 +108,18 @@ func recordOne(t *testing.T, w *abs.NDJSONWriter, nn, ni, retention, tmult, maxC
 					continue
 				}
 				pk := nd.kv.GetBroadcasts(0, 1<<24)
-				out := []desc{}
+				out := []msg{}
 				for _, raw := range pk {
-					d, ok := decodePacket(raw)
-					if !ok {
-						out = append(out, desc{{Ts: -99, St: "UNDECODABLE"}})
-						continue
-					}
-					p, bad := c.project(d)
+					m, bad := c.packetMsg(raw)
 					if bad != "" {
-						out = append(out, desc{{Ts: -98, St: bad}})
+						out = append(out, msg{Chg: desc{{Ts: -99, St: bad}}})
 						continue
 					}
-					out = append(out, p)
-					if _, dup := c.packets[p.key()]; !dup {
-						c.packets[p.key()] = raw
-						pkeys = append(pkeys, p.key())
-						pdesc[p.key()] = p
+					out = append(out, m)
+					if _, dup := c.packets[m.key()]; !dup {
+						c.packets[m.key()] = raw
+						pkeys = append(pkeys, m.key())
+						pmsg[m.key()] = m
 					}
 				}
 				synctest.Wait()
@@ -132,7 +131,7 @@ func recordOne(t *testing.T, w *abs.NDJSONWriter, nn, ni, retention, tmult, maxC
 				k := pkeys[c.rnd.Intn(len(pkeys))]
 				nd.kv.NotifyMsg(c.packets[k])
 				synctest.Wait()
-				emit(event{"a": "Deliver", "n": n, "p": pdesc[k]})
+				emit(withMsg(event{"a": "Deliver", "n": n}, pmsg[k]))
 			case r < 17:
 				if len(pkeys) == 0 {
 					continue
@@ -143,7 +142,7 @@ func recordOne(t *testing.T, w *abs.NDJSONWriter, nn, ni, retention, tmult, maxC
 					nd.kv.NotifyMsg(bad)
 				}
 				synctest.Wait()
-				emit(event{"a": "Garbage", "n": n, "p": pdesc[k], "k": kind})
+				emit(withMsg(event{"a": "Garbage", "n": n, "k": kind}, pmsg[k]))
 			case r < 21:
 				m := 1 + c.rnd.Intn(nn)
 				if m == n {
@@ -153,17 +152,11 @@ func recordOne(t *testing.T, w *abs.NDJSONWriter, nn, ni, retention, tmult, maxC
 				if a > b {
 					a, b = b, a
 				}
-				na, nb := c.nodes[a-1], c.nodes[b-1]
-				sa := na.kv.LocalState(false)
-				sb := nb.kv.LocalState(false)
 				kk := "-"
 				if r == 20 {
 					kk = "junk"
-					sa = append(append(junkPair(), sa...), 0xff, 0xff)
-					sb = append(append(junkPair(), sb...), 0xff, 0xff)
 				}
-				nb.kv.MergeRemoteState(sa, false)
-				na.kv.MergeRemoteState(sb, false)
+				c.pushPull(c.nodes[a-1], c.nodes[b-1], kk == "junk")
 				synctest.Wait()
 				emit(event{"a": "PushPull", "n": a, "m": b, "k": kk})
 			case r < 22:
@@ -189,7 +182,7 @@ func recordOne(t *testing.T, w *abs.NDJSONWriter, nn, ni, retention, tmult, maxC
 				nd.release()
 				synctest.Wait()
 				emit(event{"a": "Release", "n": n})
-			default:
+			case r < 25:
 				nd.stop()
 				c.nodes[n-1] = nil
 				nn2, err := c.newNode()
@@ -199,6 +192,43 @@ func recordOne(t *testing.T, w *abs.NDJSONWriter, nn, ni, retention, tmult, maxC
 				}
 				c.nodes[n-1] = nn2
 				emit(event{"a": "Restart", "n": n})
+			case r < 27:
+				if !gates {
+					continue
+				}
+				if !closed {
+					nd.g.setClosed(true)
+					emit(event{"a": "GateClose", "n": n})
+				} else if waiting == "idle" {
+					nd.g.setClosed(false)
+					emit(event{"a": "GateOpen", "n": n})
+				}
+			case r < 30:
+				if waiting == "idle" {
+					continue
+				}
+				nd.g.oneStep()
+				synctest.Wait()
+				emit(event{"a": "Work", "n": n})
+			case r < 31:
+				if !deletes {
+					continue
+				}
+				var err error
+				nd.g.harness(func() { err = nd.cli.Delete(context.Background(), key) })
+				synctest.Wait()
+				res := "done"
+				if err != nil {
+					res = "error: " + err.Error()
+				}
+				emit(event{"a": "Delete", "n": n, "res": res})
+			default:
+				if !deletes || waiting != "idle" {
+					continue
+				}
+				nd.kv.CleanupObsoleteEntriesForVerif()
+				synctest.Wait()
+				emit(event{"a": "Cleanup", "n": n})
 			}
 		}
 	})
@@ -217,6 +247,7 @@ func TestRecord(t *testing.T) {
 	}
 	ntr := abs.EnvInt("VERIF_NTRACES", 10)
 	steps := abs.EnvInt("VERIF_STEPS", 60)
+	pr := paramsFromEnv()
 	for k := 0; k < ntr; k++ {
 		func() {
 			defer func() {
@@ -224,8 +255,10 @@ func TestRecord(t *testing.T) {
 					res.Mismatch(abs.Mismatch{Sig: "record:panic", Case: k, Got: fmt.Sprint(r)})
 				}
 			}()
-			if f := recordOne(t, w, abs.EnvInt("VERIF_N", 4), abs.EnvInt("VERIF_NI", 3), abs.EnvInt("VERIF_RETENTION", 2),
-				abs.EnvInt("VERIF_T", 2), abs.EnvInt("VERIF_MAXCLOCK", 12), steps, abs.Seed()*7919+int64(k)); f != "" {
+			// every third trace exercises key deletion, the others the worker gates
+			deletes := k%3 == 2
+			if f := recordOne(t, w, abs.EnvInt("VERIF_N", 4), abs.EnvInt("VERIF_NI", 3), pr, abs.EnvInt("VERIF_MAXCLOCK", 12),
+				steps, true, deletes, abs.Seed()*7919+int64(k)); f != "" {
 				res.Fatal = f
 			}
 		}()
